@@ -60,3 +60,62 @@ func (v *VerifSessionDB) Keys() []string {
 	}
 	return res
 }
+
+// ---- gated session database (schedule exploration) ---------------------------------------------------------------------
+// VerifGatedSessionDB is a pass-through wrapper around a real SessionDatabase: every SessionStore METHOD call is announced
+// to Gate (store prefix, method name, key) before it is forwarded unchanged. A harness uses the announcement to park the
+// calling goroutine and so to force a particular interleaving of two requests. One method call is one atomic step - which is
+// what the mutex inside GetAndDelete / PutIfAbsent guarantees (C05); Get followed by Delete are two steps.
+
+type VerifGatedSessionDB struct {
+	Inner SessionDatabase
+	Gate  func(prefix string, method string, key string)
+}
+
+func (d *VerifGatedSessionDB) GetStore(ttl time.Duration, keys ...string) SessionStore {
+	prefix := ""
+	for i, k := range keys {
+		if i > 0 {
+			prefix += "/"
+		}
+		prefix += k
+	}
+	return verifGatedStore{inner: d.Inner.GetStore(ttl, keys...), prefix: prefix, db: d}
+}
+
+func (d *VerifGatedSessionDB) getFullKey(prefixes []string, key string) string {
+	return d.Inner.getFullKey(prefixes, key)
+}
+
+func (d *VerifGatedSessionDB) Close() { d.Inner.Close() }
+
+type verifGatedStore struct {
+	inner  SessionStore
+	prefix string
+	db     *VerifGatedSessionDB
+}
+
+func (s verifGatedStore) gate(method, key string) {
+	if s.db.Gate != nil {
+		s.db.Gate(s.prefix, method, key)
+	}
+}
+
+func (s verifGatedStore) Delete(key string) error { s.gate("Delete", key); return s.inner.Delete(key) }
+func (s verifGatedStore) Exists(key string) bool  { s.gate("Exists", key); return s.inner.Exists(key) }
+func (s verifGatedStore) Get(key string, target interface{}) error {
+	s.gate("Get", key)
+	return s.inner.Get(key, target)
+}
+func (s verifGatedStore) Put(key string, value interface{}, options ...SessionOption) error {
+	s.gate("Put", key)
+	return s.inner.Put(key, value, options...)
+}
+func (s verifGatedStore) GetAndDelete(key string, target interface{}) error {
+	s.gate("GetAndDelete", key)
+	return s.inner.GetAndDelete(key, target)
+}
+func (s verifGatedStore) PutIfAbsent(key string, value interface{}, options ...SessionOption) (bool, error) {
+	s.gate("PutIfAbsent", key)
+	return s.inner.PutIfAbsent(key, value, options...)
+}
